@@ -33,6 +33,7 @@ import AutomataVerif.Proofs.NFAOpsInter
 import AutomataVerif.Proofs.EpsOpsC
 import AutomataVerif.Proofs.NFAElimSpec
 import AutomataVerif.Proofs.NFAOpsRQ
+import AutomataVerif.Proofs.NFAOpsLQ
 import AutomataVerif.Proofs.NFAOpsShuffle
 import AutomataVerif.Props.C01
 
@@ -315,6 +316,48 @@ theorem C08_right_quotient (A : AV.NFA σ₁ α) (B : AV.NFA σ₂ α) (hA : A.V
   · intro qa hqa qb hqb a
     ext t
     simp [nfaTextbook, hBsome qa hqa qb hqb a]
+  · intro s
+    exact hfin s
+
+/-! ## left_quotient -/
+
+/-- **C08 (left_quotient).**  `A.left_quotient(B)` never fails (in particular no
+`MissingStateError`, the defect F6 repaired by fb93c3d), returns a valid NFA, and its language
+is `L(B) \ L(A) = {w | ∃ x ∈ L(B), x·w ∈ L(A)}`. -/
+theorem C08_left_quotient (A : AV.NFA σ₁ α) (B : AV.NFA σ₂ α) (hA : A.Valid) (hB : B.Valid) :
+    ∃ R, NFA.leftQuotient A B = .ok R ∧ R.Valid ∧ Lang R = leftQuotientLang (Lang A) (Lang B) := by
+  obtain ⟨ra, ta, fa, hca, sa⟩ := NFAElim.core_spec A hA
+  obtain ⟨rb, tb, fb, hcb, sb⟩ := NFAElim.core_spec B hB
+  obtain ⟨R, hR, hval, hinit, hAnone, hAsome, hBsome, hBnone, hfin⟩ :=
+    leftQuotient_spec A B hA hB ra ta fa rb tb fb hca hcb sa sb
+  refine ⟨R, hR, hval, ?_⟩
+  rw [← elim_language A hA ra ta fa sa, ← elim_language B hB rb tb fb sb]
+  refine accepts_left_quotient (nfaTextbook R) (elimTextbook A.init ta fa) (elimTextbook B.init tb fb)
+    {q | q ∈ ra} {q | q ∈ rb} A.init B.init (fun q hq a p hp => sa.closed q hq a p hp)
+    (fun q hq a p hp => sb.closed q hq a p hp) sa.init_mem sb.init_mem ?_ ?_ rfl rfl ?_ ?_ ?_ ?_ ?_ ?_
+  · intro q hq
+    ext p
+    simp only [elimTextbook, Set.mem_ofPred_eq, Set.mem_empty_iff_false, iff_false]
+    unfold Tbl.tgt
+    rw [sa.no_eps_key q hq]; simp
+  · intro q hq
+    ext p
+    simp only [elimTextbook, Set.mem_ofPred_eq, Set.mem_empty_iff_false, iff_false]
+    unfold Tbl.tgt
+    rw [sb.no_eps_key q hq]; simp
+  · simp [nfaTextbook, hinit]
+  · intro qa hqa qb hqb
+    ext t
+    exact hAnone qa hqa qb hqb t
+  · intro qa hqa qb hqb a
+    ext t
+    simp [nfaTextbook, hAsome qa hqa qb hqb a]
+  · intro qa hqa qb _ hfb a
+    ext t
+    exact hBsome qa hqa qb hfb a t
+  · intro qa hqa qb _ hfb
+    ext t
+    simp [nfaTextbook, hBnone qa hqa qb hfb]
   · intro s
     exact hfin s
 
